@@ -19,6 +19,8 @@ func init() {
 }
 
 func runC14(r *engine.Run) {
+	r.Rule("AGREE-snapshot", "see C03: MergeMPTChanges hands the merge the root, changes, deletes and start root of ONE GetChanges call on the child: a root read earlier than the change set installs a root whose nodes were never handed over - the saved root cannot be read back")
+	r.Rule("WHO-collect", "see C04: a node merged from a donor store is stored under its own hash (GetHashBytes of the node), never under the key the donor filed it under")
 	r.Rule("FRESH-decodebuf", "CreateNode hands the node decoders bytes of its own (the result of io/ioutil.ReadAll, a fresh slice), never a view of the reader's memory (bytes.Buffer.Next/Bytes): the decoders keep sub-slices of their input as the node's prefix, path and keys - the inputs of its hash -, and a caller's receive buffer is reused while the node lives")
 	r.Rule("KEY-own-hash", "at every write site of a node store the key is the hash of the very node value written: insertNode (stamp, hash, put), UpdateChanges (keys[i] = GetHashBytes(nodes[i])), PNodeDB.PutNode/MultiPutNode (Encode() of the given node under the given key), MemoryNodeDB.putNode and LevelNodeDB.putNode (given key and node passed on unchanged)")
 	r.Rule("COPY-value", "the stored value wrapper hands out and takes in copies: SecureSerializableValue.MarshalMsg returns a buffer that does not alias its own, UnmarshalMsg keeps a buffer that does not alias its argument (a reader or writer that reuses its slice must not change a node behind its hash)")
@@ -60,6 +62,8 @@ func runC14(r *engine.Run) {
 	whoTombstones(r, "WHO-tombstones")
 	cloneComplete(r, "CLONE-complete")
 	freshDecodeBuf(r, "FRESH-decodebuf")
+	agreeMergeSnapshot(r, "AGREE-snapshot")
+	whoCollect(r)
 }
 
 func keyOwnHash(r *engine.Run) {
